@@ -447,7 +447,11 @@ def record_points(target):
       return ret_tracer
     if depth[0] and code.co_filename.rpartition('/malt/')[1] and any(d in code.co_filename for d in PIPE_DIRS):
       caller = frame.f_back
-      events.append((code.co_filename.split('/malt/')[-1], code.co_name, caller.f_code.co_filename.split('/')[-1], caller.f_lineno))
+      cfile = caller.f_code.co_filename.split('/')[-1]
+      # a call made from a weak-reference callback (WeakValueDictionary.remove -> QN.__hash__ ...) is not a step of the
+      # pipeline: when it runs depends on when the referent dies, and the interpreter swallows whatever it raises
+      if cfile not in ('weakref.py', '_weakrefset.py'):
+        events.append((code.co_filename.split('/malt/')[-1], code.co_name, cfile, caller.f_lineno))
     return None
 
   def ret_tracer(frame, event, arg):
